@@ -41,6 +41,9 @@ Proof. exact history_from_any_state. Qed.
 Theorem C20_get_pixel_outside_none : forall d p, ~ in_display p -> get_pixel d p = Ok None.
 Proof. exact get_pixel_outside. Qed.
 
+Theorem C20_get_pixel_total : forall d p, exists c, get_pixel d p = Ok c.
+Proof. exact get_pixel_total. Qed.
+
 Theorem C20_draw_pixel_effect : forall d p c d',
   draw_pixel d p c = Ok d' ->
   allow_overdraw d' = allow_overdraw d /\ allow_oob d' = allow_oob d /\
@@ -175,6 +178,31 @@ Theorem C20_character_sets :
                   map_Rgb565; map_Bgr565; map_Rgb888; map_Bgr888].
 Proof. exact character_sets. Qed.
 
+(* the default arm of color_to_char is '?' (where there is one), never ' ' and never the character of a colour; hence
+   what Debug prints identifies the colour: a character of the set is printed only for THE colour of that character *)
+Theorem C20_default_chars : Forall (fun m => m_default m = None \/ m_default m = Some 63) all_mappings.
+Proof. exact default_chars. Qed.
+
+Theorem C20_debug_char_identifies_colour : forall m v ch,
+  In m all_mappings -> color_to_char m v = Ok ch ->
+  ch <> SPACE /\ (In ch (charset m) -> In v (colset m) /\ char_to_color m ch = Ok v).
+Proof. exact debug_char_identifies_colour. Qed.
+
+Theorem C20_debug_chars_distinct : forall m v1 v2 ch,
+  In m all_mappings -> In v1 (colset m) -> color_to_char m v1 = Ok ch -> color_to_char m v2 = Ok ch -> v1 = v2.
+Proof. exact debug_chars_distinct. Qed.
+
+Theorem C20_rgb_colour_sets :
+  colset map_Rgb332 = [0; 224; 28; 3; 252; 227; 31; 255] /\
+  colset map_Rgb444 = [0; 3840; 240; 15; 4080; 3855; 255; 4095] /\
+  colset map_Rgb555 = [0; 31744; 992; 31; 32736; 31775; 1023; 32767] /\
+  colset map_Bgr555 = [0; 31; 992; 31744; 1023; 31775; 32736; 32767] /\
+  colset map_Rgb565 = [0; 63488; 2016; 31; 65504; 63519; 2047; 65535] /\
+  colset map_Bgr565 = [0; 31; 2016; 63488; 2047; 63519; 65504; 65535] /\
+  colset map_Rgb888 = [0; 16711680; 65280; 255; 16776960; 16711935; 65535; 16777215] /\
+  colset map_Bgr888 = [0; 255; 65280; 16711680; 65535; 16711935; 16776960; 16777215].
+Proof. exact rgb_colour_sets. Qed.
+
 (* Debug never panics: every raw value of every colour type has a character (its own or '?') *)
 Theorem C20_color_to_char_total : forall m v,
   In m all_mappings -> 0 <= v < m_nvalues m -> exists ch, color_to_char m v = Ok ch.
@@ -201,6 +229,28 @@ Theorem C20_pattern_debug_roundtrip : forall m pat,
     forall x y, 0 <= x < SIZE -> 0 <= y < SIZE ->
       exists c, get_pixel d (P x y) = Ok c /\ cc m c (nth (Z.to_nat x) (nth (Z.to_nat y) pat []) SPACE).
 Proof. exact pattern_then_debug. Qed.
+
+(* the same for patterns in any accepted spelling: lower-case hex digits are accepted and are printed back in upper case *)
+Theorem C20_pattern_debug_roundtrip_any_case : forall m pat,
+  In m all_mappings -> pattern_wf_any m pat ->
+  exists d, from_pattern m pat = Ok d /\
+    debug_rows m d = Ok (normalise (map (map ascii_upper) pat)) /\
+    forall x y, 0 <= x < SIZE -> 0 <= y < SIZE ->
+      exists c, get_pixel d (P x y) = Ok c /\ pattern_char m (nth (Z.to_nat x) (nth (Z.to_nat y) pat []) SPACE) = Ok c.
+Proof. exact pattern_then_debug_any_case. Qed.
+
+(* the text Debug writes, in terms of the printed rows: "MockDisplay[", the rows, "(n empty rows skipped)" with
+   n = 64 - number of printed rows when n > 0, "]"; n in decimal *)
+Theorem C20_debug_string_rows : forall m d rows,
+  debug_rows m d = Ok rows ->
+  zlen rows <= SIZE /\
+  debug_string m d =
+    Ok (STR_HEAD ++ [10] ++ concat (map (fun r => r ++ [10]) rows)
+        ++ (if zlen rows <? SIZE then [40] ++ decimal (SIZE - zlen rows) ++ STR_SKIP ++ [10] else []) ++ [93; 10]).
+Proof. exact debug_string_rows. Qed.
+
+Theorem C20_decimal : forall n, 0 <= n < 100 -> decimal n = if n <? 10 then [48 + n] else [48 + n / 10; 48 + n mod 10].
+Proof. exact decimal_spec. Qed.
 
 Theorem C20_pattern_debug_pattern : forall m pat d,
   In m all_mappings -> pattern_wf m pat -> from_pattern m pat = Ok d ->
